@@ -168,7 +168,7 @@ def run(tier, seed):
                                     theorem=pg['theorems'], problems=pg['problems']), False))
     ncases = 60 if tier == 'quick' else 800
     cases = [seed * 100000 + 8000 + i for i in range(ncases)]
-    for r in core.run_cases(run_case, cases):
+    for r in core.run_cases(run_case, core.with_corpus(PID, cases)):
         rep.merge(r)
     rep.obligation('correspondence: Mandoline.Plate.plate (extracted) = Mandoline(...).slice(fformat="return") on 2D plotfiles, '
                    'bit for bit per field and for grid_level',
